@@ -34,6 +34,7 @@ func checkC18(p *Prog, r *Report) {
 	ruleC18Wrap(p, a, r)
 	ruleC18ExactString(p, a, r)
 	ruleC18PtrFormat(p, a, r)
+	ruleC18FirstByLen(p, a, r)
 	ruleC18ArgByValue(p, a, r)
 }
 
@@ -665,7 +666,8 @@ func ruleResourceCaps(p *Prog, a *Anchors, r *Report, rule string) {
 func cappedBy(p *Prog, at ssa.Instruction, n ssa.Value) (bool, string) {
 	cands := derivedFrom(p, n, 0)
 	capName := ""
-	g := Guarded(at, func(c ssa.Value, pol bool) bool {
+	// (the comparison may stand in a predicate function — exceedsMaxPadding(n) — whose parameter stands for the argument)
+	g := Guarded(at, throughPredicates(p, func(c ssa.Value, pol bool, sub func(ssa.Value) ssa.Value) bool {
 		bo, ok := c.(*ssa.BinOp)
 		if !ok {
 			return false
@@ -675,8 +677,9 @@ func cappedBy(p *Prog, at ssa.Instruction, n ssa.Value) (bool, string) {
 			return false
 		}
 		match := false
+		x := sub(bo.X)
 		for _, cv := range cands {
-			if bo.X == cv || p.VN(bo.X) == p.VN(cv) {
+			if x == cv || p.VN(x) == p.VN(cv) {
 				match = true
 			}
 		}
@@ -688,7 +691,7 @@ func cappedBy(p *Prog, at ssa.Instruction, n ssa.Value) (bool, string) {
 			return true
 		}
 		return false
-	})
+	}))
 	return g, capName
 }
 
